@@ -252,17 +252,30 @@ def check_histories(ctx, model, spec, supported):
         out = []
         for hi, hist in enumerate(hists):
             h = make_handlers()[hi % 2]
-            sid, steps = None, []
+            sid, steps, kept = None, [], []
             for i, r in enumerate(hist):
                 try:
                     resp, new_sid = await h.handle_message(parse_message(request_dict(r, 2 * i + 1)), sid)
                     steps.append(observe_response(h, resp, new_sid))
+                    kept.append((resp, new_sid))
                     sid = new_sid if new_sid is not None else sid
                 except Exception as e:                          # noqa: BLE001
                     steps.append((["raised", type(e).__name__], ["none"]))
+                    kept.append(None)
+            # the answers are CONSUMED (serialised by the transport) only now, after the later requests were handled:
+            # each must still say what it said when it was returned
+            late.append([observe_response(h, *k) if k is not None else st for k, st in zip(kept, steps)])
             out.append(steps)
         return out
+    late = []
     obs = asyncio.run(main())
+    for hist, steps, lsteps in zip(hists, obs, late):
+        for i, (st, lt) in enumerate(zip(steps, lsteps)):
+            ctx.spec_total += 1
+            if st != lt:
+                ctx.spec_violation("reinitialize:answer-changed-after-it-was-returned", {"history": hist, "step": i, "late": True},
+                                   f"at return: answered {st[0]}, session {st[1]}; when consumed after the later requests: "
+                                   f"answered {lt[0]}, session {lt[1]}")
     flat = [(hist, i, r, a, s) for hist, steps in zip(hists, obs) for i, (r, (a, s)) in enumerate(zip(hist, steps))]
     sres = spec.run([call(40, sx(supported), enc_requested(r), enc_value(a) if a[0] != "raised" else "()", enc_value(s))
                      for _h, _i, r, a, s in flat])
@@ -436,14 +449,20 @@ def replay(ctx, data):
 
         async def main():
             h = make_handlers()[0]
-            sid, bad = None, False
+            sid, bad, kept = None, False, []
             for i, r in enumerate(case["history"]):
                 resp, new_sid = await h.handle_message(parse_message(request_dict(r, 2 * i + 1)), sid)
                 a, s_ = observe_response(h, resp, new_sid)
+                kept.append((resp, new_sid, a, s_))
                 sid = new_sid if new_sid is not None else sid
                 ok, clause = spec.run([call(40, sx(supported), enc_requested(r), enc_value(a), enc_value(s_))])[0]
                 print("step", i, r, "answered", a, "session", s_, "ok" if ok else "FAILS " + SERVER_CLAUSES.get(clause, "?"))
                 bad = bad or not ok
+            for i, (resp, new_sid, a, s_) in enumerate(kept):
+                la, ls = observe_response(h, resp, new_sid)
+                if (la, ls) != (a, s_):
+                    print("step", i, "answer read again after the later requests: answered", la, "session", ls, "(was", a, s_, ") FAILS")
+                    bad = True
             return bad
         bad = asyncio.run(main())
         if bad:
